@@ -273,28 +273,32 @@ def copyBranch (F : Facts) (e : ExcObj) : Built :=
   | some c => .ok (if F.copyArgsCheck && c.args != e.args then e else c)
   | none => if F.copyFallback then .ok e else .raised ctorFailure
 
+/-- the GlomError branch of the handler: `copy.copy(e)` (guarded), then `err._set_wrapped(e)` -/
+def glomErrBranch (F : Facts) (e : ExcObj) : Built :=
+  match copyBranch F e with
+  | .ok err =>                                                 -- err._set_wrapped(e)
+    if isInst err "GlomError" then
+      if err.cls.frozen then (if F.attrGuarded then .ok e else .raised attrFailure)
+      else .ok { err with wrapped := some e.id }
+    else .raised attrFailure                                   -- the copy has no `_set_wrapped`
+  | r => r
+
+/-- `if isinstance(err, GlomError): err._finalize(…)  else: raise`, then `if err is not None: raise err` -/
+def finish (F : Facts) (e : ExcObj) (b : Built) : Res :=
+  match b with
+  | .raised x => .exc x
+  | .ok err =>
+    if isInst err "GlomError" then                             -- err._finalize(...): sets attributes
+      if err.cls.frozen then (if F.attrGuarded then .exc e else .exc attrFailure)
+      else if F.errTestTruthy && err.cls.falsy then .exc unboundLocal   -- `if err:` is False, `return ret`
+      else .exc err                                            -- raise err
+    else .exc e                                                -- wrapping failed: raise
+
 /-- body of the outer `except Exception as e:` -/
 def handler (F : Facts) (s : Settings) (e : ExcObj) : Res :=
   if effDebug F s then .exc e                                  -- if glom_debug: raise
-  else
-    let err : Built :=
-      if isInst e "GlomError" then
-        match copyBranch F e with                              -- copy.copy(e), guarded
-        | .ok err =>                                           -- err._set_wrapped(e)
-          if isInst err "GlomError" then
-            if err.cls.frozen then (if F.attrGuarded then .ok e else .raised attrFailure)
-            else .ok { err with wrapped := some e.id }
-          else .raised attrFailure                             -- the copy has no `_set_wrapped`
-        | r => r
-      else wrap F e                                            -- GlomError.wrap(e)
-    match err with
-    | .raised x => .exc x
-    | .ok err =>
-      if isInst err "GlomError" then                           -- err._finalize(...): sets attributes
-        if err.cls.frozen then (if F.attrGuarded then .exc e else .exc attrFailure)
-        else if F.errTestTruthy && err.cls.falsy then .exc unboundLocal   -- `if err:` is False, `return ret`
-        else .exc err                                          -- raise err
-      else .exc e                                              -- wrapping failed: raise
+  else finish F e (if isInst e "GlomError" then glomErrBranch F e   -- copy.copy(e), guarded
+                   else wrap F e)                              -- GlomError.wrap(e)
 
 /-- the outer `try … except Exception as e` -/
 def outer (F : Facts) (s : Settings) (e : ExcObj) : Res :=
